@@ -8,8 +8,12 @@ from harness.common import bud
 from harness.sessions import SB
 
 PROP = "C09"
-MODULES = ["CassisModel.Properties.C09", "CassisModel.Properties.C15", "CassisModel.Properties.C09Doc"]
+MODULES = ["CassisModel.Properties.C09", "CassisModel.Properties.C15", "CassisModel.Properties.C09Doc", "CassisModel.Properties.C09DocJson"]
 THEOREMS = [
+    "Cassis.Json.loadJson_reseeds",
+    "Cassis.Json.sofaPass_bounded",
+    "Cassis.Json.fsPass_bounded",
+    "Cassis.Json.loadJson_keeps_ids",
     "Cassis.Cas.ids_history",
     "Cassis.Cas.ids_step",
     "Cassis.Cas.generated_id_fresh",
